@@ -100,8 +100,8 @@ PROPS = {
     ),
     'C13': dict(
         I=['c'],
-        S=dict(quick=['s_reads_client', 's_reads_snapdata', 's_reads_byparent', 's_reads_byid', 's_writes_newclient', 's_writes_snapshot', 's_writes_addversion', 's_reopen'], thorough=['s_reads_client', 's_reads_snapdata', 's_reads_byparent', 's_reads_byid', 's_writes_newclient', 's_writes_snapshot', 's_writes_addversion', 's_reopen']),
-        bounds='SQLite glue vs storage contract, per StorageTxn method, rows <= 3; reopen between any two steps',
+        S=dict(quick=['s_reads_client', 's_writes_newclient', 's_writes_snapshot', 's_writes_addversion', 's_reopen'], thorough=['s_reads_client', 's_reads_snapdata', 's_reads_byparent', 's_reads_byid', 's_writes_newclient', 's_writes_snapshot', 's_writes_addversion', 's_reopen']),
+        bounds='SQLite glue vs storage contract, per StorageTxn method, rows <= 3; reopen between any two steps (quick: the three write methods, get_client and reopen; the other read methods run in the quick checks of C09/C11/C18 and in the thorough tier here); in-memory backend vs contract: every method (engine I)',
     ),
     'C14': dict(
         H=['c14'],
